@@ -105,6 +105,31 @@ class Body:
                 st.append(s)
         return self.reachable(0) - seen
 
+    def loop_heads(self):
+        """targets of back edges (DFS from the entry block)"""
+        if getattr(self, '_loop_heads', None) is None:
+            heads = set()
+            color = {}
+            stack = [(0, iter(self._succ[0]))]
+            color[0] = 1
+            while stack:
+                u, it = stack[-1]
+                adv = False
+                for v in it:
+                    c = color.get(v, 0)
+                    if c == 1:
+                        heads.add(v)
+                    elif c == 0:
+                        color[v] = 1
+                        stack.append((v, iter(self._succ[v])))
+                        adv = True
+                        break
+                if not adv:
+                    color[u] = 2
+                    stack.pop()
+            self._loop_heads = heads
+        return self._loop_heads
+
     def has_loop(self):
         if getattr(self, '_has_loop', None) is not None:
             return self._has_loop
